@@ -1,5 +1,6 @@
 """C04 — exceptions from tests and layers are contained."""
 import collections
+import os
 
 from vt import monitors
 from vt import ow
@@ -42,8 +43,12 @@ def _o_filter(case):
     return mode in ('seq', 'j2') and v == 0 and shape in ('A1B2c', 'A2B1i', 'N1B2C1', 'BIG')
 
 
-# `assert` statements vanish under python -O
-ENV_PASSES = [{'name': 'python -O', 'argv': ['-O'], 'env': {}, 'filter': _o_filter}]
+# `assert` statements vanish under python -O; files are written in the
+# locale's encoding
+ENV_PASSES = [{'name': 'python -O', 'argv': ['-O'], 'env': {}, 'filter': _o_filter},
+              {'name': 'C locale', 'argv': ['-X', 'utf8=0'],
+               'env': {'LC_ALL': 'C', 'LANG': 'C', 'PYTHONUTF8': '0', 'PYTHONCOERCECLOCALE': '0', 'PYTHONIOENCODING': 'utf-8'},
+               'filter': lambda case: str(case[5]).startswith('xml')}]
 
 
 def _menu():
@@ -67,6 +72,14 @@ def cases(tier, seed):
     K = 1 if tier == 'quick' else 2
     vs = [0, 2] if tier == 'quick' else [0, 1, 2, 3]
     modes = ['seq', 'j2', 'c'] if tier == 'quick' else ['seq', 'j2', 'j3', 'p', 'c', 'c+j2']
+    # real processes: a test that leaves the working directory changed while
+    # the search path is relative (shared with C03)
+    for where in ('unit', 'layer_test'):
+        yield ['CWD', where, {}, False, 0, 'resumed']
+    # --xml with a non-ASCII exception message (also in the C-locale pass)
+    for sc in ({'s': 'error', 'msg': 'caf\xe9 \u2028 \U0001f600'}, {'s': 'fail', 'mn': 'gr\xf6\xdfe'}):
+        for mode in ('xml', 'xml+j2'):
+            yield ['U1A2', ['pass', sc, 'pass'], {}, False, 0, mode]
     for nie in (None, 1, 7):
         for buf in (False, True):
             for mode in ('seq', 'j2', 'j3', 'c', 'p'):
@@ -106,11 +119,19 @@ def argv_of(buf, v, mode):
         argv.append('-c')
     elif mode == 'c+j2':
         argv += ['-c', '-j2']
+    elif mode.startswith('xml'):
+        argv += ['--xml', '/dev/shm/vt-c04-xml-%d' % os.getpid()] + (['-j2'] if mode.endswith('j2') else [])
     return argv
 
 
 def run_case(case):
     shape, scripts, lf, buf, v, mode = case
+    if shape == 'CWD':
+        from vt.props import c03
+        viol = c03.run_cwd_case(scripts, mode)
+        for vv in viol:
+            vv['sig'] = {'buf': False, 'mode': 'cwd', 'scripts': [], 'lf': []}
+        return {'nontrivial': True, 'violations': viol, 'outcome': 'cwd', 'nogate': True}
     if shape == 'BIG':
         # 12 layers x 40 tests + 30 unit tests, every outcome kind many times
         spec = ow.big_spec(nie=scripts)
@@ -119,6 +140,9 @@ def run_case(case):
         spec = ow.build(shape, scripts, lf)
     argv = argv_of(buf, v, mode)
     res = runrt.run_world(spec, argv)
+    if mode.startswith('xml'):
+        import shutil
+        shutil.rmtree('/dev/shm/vt-c04-xml-%d' % os.getpid(), ignore_errors=True)
     sv = monitors.SpecView(spec)
     kinds = sorted({((s.get('dt', '') + s['s']) if isinstance(s, dict) else s) for s in scripts if s != 'pass'})
     sig = {'buf': buf, 'mode': mode, 'scripts': kinds, 'lf': sorted(h for d in lf.values() for h in d)}
